@@ -150,7 +150,7 @@ pub(crate) mod kani_verif {
         kani::cover!(MAC_CALLS.load(Ordering::Relaxed) == 1 && len - total == N, "a complete layout reaches the MAC comparison");
         kani::cover!(len >= 4 && total > len, "corrupted level word reachable");
     }
-    // @h props=C10,C11 tier=quick kind=proved cfg=w8 timeout=2400 funcs=hss_expand_aux_data contract="for every buffer of length 0..120 and every content: no panic; Some only if first byte != 0, len >= 4, the layout named by the level word fits and the MAC field equals compute_hmac(seed-derived key, header||levels); slices at the hash-sigs offsets (MAC computation by contract)"
+    // @h props=C10,C11! tier=quick kind=proved cfg=w8 timeout=2400 funcs=hss_expand_aux_data contract="for every buffer of length 0..120 and every content: no panic; Some only if first byte != 0, len >= 4, the layout named by the level word fits and the MAC field equals compute_hmac(seed-derived key, header||levels); slices at the hash-sigs offsets (MAC computation by contract)"
     #[kani::proof]
     #[kani::stub(zeroize::optimization_barrier, no_barrier)]
     #[kani::stub(<[u8; 32] as tinyvec::Array>::default, fast_default)]
